@@ -14,6 +14,7 @@ import contextlib
 import itertools
 import os
 import re
+import sys
 
 import vlib
 from vlib import Stream, exc_class, err_line, import_freephil, qcode, canon
@@ -31,6 +32,16 @@ KINDS = [
 
 F10 = "F10-disabled-variable"
 F17 = "C12-later-dotted-scope-visible"
+# a known_findings.json entry is recognised by its id or by its "signature" field
+SIGNATURES = {F10: "disabled-variable", F17: "later-dotted-scope"}
+
+
+def finding_key(finding):
+    """-> F10 | F17 | None : which of this check's two defect signatures a registered finding names"""
+    for k, sig in SIGNATURES.items():
+        if finding.get("id") == k or finding.get("signature") == sig:
+            return k
+    return None
 
 
 def err_obs(e):
@@ -193,12 +204,25 @@ def render(items, ind=""):
     for it in items:
         pre = "!" if it[2] else ""
         if it[0] == "d":
-            out.append("%s%s%s = %s\n" % (ind, pre, it[1], " ".join(render_word(w) for w in it[3])))
+            # optional 5th element 1: every further word on a line of its own (backslash continuation)
+            sep = " \\\n" + ind + "    " if len(it) > 4 and it[4] else " "
+            out.append("%s%s%s = %s\n" % (ind, pre, it[1], sep.join(render_word(w) for w in it[3])))
         else:
             out.append("%s%s%s {\n" % (ind, pre, it[1]))
             out.append(render(it[3], ind + "  "))
             out.append("%s}\n" % ind)
     return "".join(out)
+
+
+@contextlib.contextmanager
+def recursion_limit(n):
+    """Runaway recursion (a broken stop_id test) must fail fast, not after main.py's 10000 frames."""
+    old = sys.getrecursionlimit()
+    sys.setrecursionlimit(n)
+    try:
+        yield
+    finally:
+        sys.setrecursionlimit(old)
 
 
 @contextlib.contextmanager
@@ -296,7 +320,10 @@ def gen_items(rng, depth, malformed, budget):
             items.append(["s", nm, dis, gen_items(rng, depth + 1, malformed, budget)])
         else:
             nw = 1 if rng.random() < 0.75 else rng.randint(2, 3)
-            items.append(["d", name, dis, [gen_word(rng, malformed) for _ in range(nw)]])
+            it = ["d", name, dis, [gen_word(rng, malformed) for _ in range(nw)]]
+            if nw > 1 and rng.random() < 0.4:
+                it.append(1)
+            items.append(it)
     return items
 
 
@@ -346,8 +373,7 @@ class Documents(Stream):
     def __init__(self, ctx):
         super().__init__(ctx)
         self.fp = import_freephil()
-        known = {f["id"] for f in vlib.load_findings("C12") if f.get("status") == "open"}
-        self.known = known
+        self.known = {finding_key(f) for f in vlib.load_findings("C12") if f.get("status") == "open"} - {None}
 
     # -- cases
     def corpus(self):
@@ -408,24 +434,30 @@ class Documents(Stream):
 
         walk(tree, True)
         out_defs = []
-        with patched_environ(env, var_names(case["doc"])):
+        with patched_environ(env, var_names(case["doc"])), recursion_limit(1000):
             for d, act in defs:
                 res = []
                 for diff in (False, True):
                     try:
                         r = d.resolve_variables(diff_mode=diff)
                         res.append(["ok", words_obs(r.words)])
+                    except vlib.Timeout:
+                        raise
                     except Exception as e:  # noqa
                         res.append(err_obs(e))
                 out_defs.append([str(d.primary_id or 0), "1" if act else "0", res[0], res[1]])
             try:
                 whole = ["ok", flat(tree.resolve_variables())]
+            except vlib.Timeout:
+                raise
             except Exception as e:  # noqa
                 whole = err_obs(e)
             gets = []
             for p in paths[:6]:
                 try:
                     gets.append([p, ["ok", flat(tree.get(p))]])
+                except vlib.Timeout:
+                    raise
                 except Exception as e:  # noqa
                     gets.append([p, err_obs(e)])
         return ["parsed", canon(vlib.objs_sx(tree)), out_defs, whole, gets]
@@ -551,7 +583,9 @@ def shrink_items(items):
             ws = it[3]
             if len(ws) > 1:
                 for j in range(len(ws)):
-                    yield items[:i] + [[it[0], it[1], it[2], ws[:j] + ws[j + 1:]]] + items[i + 1:]
+                    yield items[:i] + [[it[0], it[1], it[2], ws[:j] + ws[j + 1:]] + it[4:]] + items[i + 1:]
+                if len(it) > 4 and it[4]:
+                    yield items[:i] + [it[:4]] + items[i + 1:]
         if it[2]:
             yield items[:i] + [[it[0], it[1], 0, it[3]]] + items[i + 1:]
         if "." in it[1]:
@@ -640,8 +674,11 @@ class Spec:
             if it[0] == "d":
                 n = Node()
                 n.kind, n.name, n.disabled, n.kids, n.parent, n.shell = "d", last, bool(it[2]), [], holder, False
-                n.words = [(v, q, self.line) for v, q in it[3]]
+                multi = len(it) > 4 and it[4]
                 n.line, n.pos = self.line, pos
+                n.words = [(v, q, self.line + (i if multi else 0)) for i, (v, q) in enumerate(it[3])]
+                if multi:
+                    self.line += len(it[3]) - 1
                 holder.kids.append(n)
                 self.defs.append(n)
             else:
@@ -770,8 +807,8 @@ class Spec:
 
 
 def match_finding(finding, failure):
-    what = failure.get("what", "")
-    return finding.get("id") in (F10, F17) and what.startswith(finding["id"] + ":")
+    k = finding_key(finding)
+    return k is not None and failure.get("what", "").startswith(k + ":")
 
 
 SPEC = {
